@@ -555,8 +555,16 @@ def forked_check(s, timeout_ms, model_fn=None):
 
 
 class Prover:
-    def __init__(self, timeout_ms=30000):
+    def __init__(self, timeout_ms=30000, cross_budget=0, cross_stride=5, cross_timeout_ms=10000):
         self.timeout = timeout_ms
+        # second solver: every `cross_stride`-th decided non-trivial goal is re-decided by cvc5 until the budget is used
+        self.cross_budget = cross_budget
+        self.cross_stride = cross_stride
+        self.cross_timeout = cross_timeout_ms
+        self.cross = dict(asked=0, agree=0, unknown=0, disagree=0, errors=0, time_s=0.0)
+        self.cross_disagreements = []
+        self.cross_client = None
+        self._cross_count = 0
         self.queries = 0
         self.solver_time = 0.0
         self.samples = []
@@ -569,7 +577,8 @@ class Prover:
         if self.client is None:
             from .solver_server import SolverClient
             self.client = SolverClient()
-        r, env = self.client.ask(s.to_smt2(), self.timeout, self.cur_inputs if model_fn is not None else None)
+        self.last_smt2 = s.to_smt2()
+        r, env = self.client.ask(self.last_smt2, self.timeout, self.cur_inputs if model_fn is not None else None)
         self.last_env = env
         self.queries += 1
         dt = time.time() - t
@@ -577,6 +586,30 @@ class Prover:
         if dt > 5:
             self.slow.append('%s %.1fs %s' % (what, dt, r))
         return r
+
+    def _cross_check(self, label, verdict, smt2):
+        self._cross_count += 1
+        if (self._cross_count - 1) % self.cross_stride:
+            return
+        if self.cross_client is None:
+            from .cvc5_server import Cvc5Client
+            self.cross_client = Cvc5Client()
+        self.cross_budget -= 1
+        t = time.time()
+        r2, err = self.cross_client.ask(smt2, self.cross_timeout)
+        self.cross['time_s'] += time.time() - t
+        self.cross['asked'] += 1
+        if err and r2 == 'unknown' and 'hard timeout' not in err:
+            self.cross['errors'] += 1
+            if len(self.cross_disagreements) < 5:
+                self.cross_disagreements.append(dict(label=label, z3=verdict, cvc5='error: ' + err, fatal=False))
+        if r2 == 'unknown':
+            self.cross['unknown'] += 1
+        elif r2 == verdict:
+            self.cross['agree'] += 1
+        else:
+            self.cross['disagree'] += 1
+            self.cross_disagreements.append(dict(label=label, z3=verdict, cvc5=r2, fatal=True, smt2=smt2[:4000]))
 
     def prove_path(self, pr):
         """returns list of dict per goal: label, verdict in {unsat, sat, unknown}, env (if sat)"""
@@ -628,6 +661,8 @@ class Prover:
             t_g = time.time()
             r = self._check(s, 'goal: ' + g.label, mf)
             rec = dict(label=g.label, verdict=r)
+            if r in ('sat', 'unsat') and self.cross_budget > 0 and g.cond is not X.TRUE:
+                self._cross_check(g.label, r, self.last_smt2)
             if r == 'sat':
                 rec['env'] = self.last_env
             elif r == 'unknown':
